@@ -827,3 +827,53 @@ V('n-bounding-box-quick-reject', ['C17', 'C01', 'C12'], [(CR, """        return 
             return False
         return self.r >= math.hypot(dx, dy)
 """)], neutral=True)
+# ---------------------------------------------------------------- round 16 rules
+V('c07-combine-extends-original-command', ['C07'], [(R, """                    self.extrusionAmount += other.extrusionAmount
+""", """                    self.extrusionAmount += other.extrusionAmount
+                else:
+                    self.originalCommand += " " + GCODE_PARAMS_REGEX.sub("\\\\1", other.originalCommand)
+""")])
+V('c08-absent-words-zero-in-relative-mode', ['C08', 'C05', 'C04', 'C01'], [(H, """        extruderPosition = None
+        feedRate = None
+        x = None
+        y = None
+        z = None
+""", """        extruderPosition = None
+        feedRate = None
+        x = None if (self.state.position.X_AXIS.absoluteMode) else 0
+        y = None if (self.state.position.Y_AXIS.absoluteMode) else 0
+        z = None if (self.state.position.Z_AXIS.absoluteMode) else 0
+""")])
+V('c12-paused-is-not-printing', ['C12', 'C11'], [(P, """        elif (event in (
+                Events.PRINT_DONE,""", """        elif (event == Events.PRINT_PAUSED):
+            self._activePrintJob = False
+        elif (event == Events.PRINT_RESUMED):
+            self._activePrintJob = True
+        elif (event in (
+                Events.PRINT_DONE,""")])
+V('c14-offline-buffer-emptied-in-place', ['C14', 'C20'], [(SP, """        self.bufferedCommands = []
+
+    def isStreaming""", """        del self.bufferedCommands[:]
+
+    def isStreaming"""), (SP, """        self.commInstance.reset()
+
+        if (self.gcodeHandlers.handleAtCommand(
+                self.commInstance,
+                command,
+                parameters
+        )):
+            if (self.commInstance.bufferedCommands):
+                return self.eol.join(self.commInstance.bufferedCommands) + self.eol
+""", """        handled = self.gcodeHandlers.handleAtCommand(self.commInstance, command, parameters)
+        bufferedCommands = self.commInstance.bufferedCommands
+        self.commInstance.reset()
+
+        if (handled):
+            if (bufferedCommands):
+                return self.eol.join(bufferedCommands) + self.eol
+""")])
+V('n-offline-buffer-emptied-in-place-before', ['C14', 'C20'], [(SP, """        self.bufferedCommands = []
+
+    def isStreaming""", """        del self.bufferedCommands[:]
+
+    def isStreaming""")], neutral=True)
